@@ -1,3 +1,87 @@
+// Verification seams: compiled only with the cargo feature `verif-hooks`; the macros expand to
+// nothing without it.
+#[cfg(feature = "verif-hooks")]
+macro_rules! vlock {
+    ($name:literal, $m:expr) => {
+        $crate::verif::before_lock($name, &|| $crate::verif::would_not_block($m.try_lock()));
+    };
+}
+#[cfg(not(feature = "verif-hooks"))]
+macro_rules! vlock {
+    ($name:literal, $m:expr) => {};
+}
+#[cfg(feature = "verif-hooks")]
+macro_rules! vread {
+    ($name:literal, $m:expr) => {
+        $crate::verif::before_lock($name, &|| $crate::verif::would_not_block($m.try_read()));
+    };
+}
+#[cfg(not(feature = "verif-hooks"))]
+macro_rules! vread {
+    ($name:literal, $m:expr) => {};
+}
+#[cfg(feature = "verif-hooks")]
+macro_rules! vwrite {
+    ($name:literal, $m:expr) => {
+        $crate::verif::before_lock($name, &|| $crate::verif::would_not_block($m.try_write()));
+    };
+}
+#[cfg(not(feature = "verif-hooks"))]
+macro_rules! vwrite {
+    ($name:literal, $m:expr) => {};
+}
+#[cfg(feature = "verif-hooks")]
+macro_rules! vheld {
+    ($name:literal) => {
+        $crate::verif::held($name)
+    };
+}
+#[cfg(not(feature = "verif-hooks"))]
+macro_rules! vheld {
+    ($name:literal) => {
+        ()
+    };
+}
+#[cfg(feature = "verif-hooks")]
+macro_rules! vpoint {
+    ($site:literal) => {
+        $crate::verif::sched_point($site);
+    };
+}
+#[cfg(not(feature = "verif-hooks"))]
+macro_rules! vpoint {
+    ($site:literal) => {};
+}
+#[cfg(feature = "verif-hooks")]
+macro_rules! vio {
+    ($op:expr) => {
+        $crate::verif::io_step(|| {
+            #[allow(unused_imports)]
+            use $crate::verif::IoOp::*;
+            $op
+        })?;
+    };
+}
+#[cfg(not(feature = "verif-hooks"))]
+macro_rules! vio {
+    ($op:expr) => {};
+}
+#[cfg(feature = "verif-hooks")]
+macro_rules! vowner {
+    ($tag:literal) => {
+        $crate::verif::owner_scope($tag)
+    };
+}
+#[cfg(not(feature = "verif-hooks"))]
+macro_rules! vowner {
+    ($tag:literal) => {
+        ()
+    };
+}
+
+#[cfg(feature = "verif-hooks")]
+pub mod verif;
+
 pub mod api;
 pub mod backup;
 pub mod blob_store;
